@@ -2,6 +2,7 @@
 The bytes the real client gives to sendall() are parsed by the Lean strict parser (`Wire.parseAll`, a
 specification, not the client model) and compared with the command the arguments *mean*; an input error must
 come before the first byte.  Correspondence: the Lean client model must send the same bytes / reject the same calls."""
+import copy
 import itertools
 
 from clientlib import call_tokens, cfg_tok, key_tok, run_call
@@ -143,6 +144,22 @@ def gen(ctx):
             cases.append(((False, False, len(cases) % 2 == 0, b""), {"op": "get", "k": k}))
             if n < 3 or len(cases) % 4 == 0:
                 cases.append(((False, False, False, b""), {"op": "set", "k": k, "v": b"v", "nr": bool(len(cases) % 2)}))
+    # the same alphabet spelled as text keys (the str and the bytes branch of the key check are different code), short and at the length limit
+    for n in (1, 2, 3):
+        for t in itertools.product([c for c in CLASSES if c < 0x80], repeat=n):
+            k = bytes(t).decode("ascii")
+            if n < 3 or len(cases) % 3 == 0:
+                cases.append(((False, False, len(cases) % 2 == 0, b""), {"op": "get" if len(cases) % 3 else "delete", "k": k, "nr": False}))
+            cases.append(((len(cases) % 4 == 0, False, False, b"" if len(cases) % 8 else b"ns:"), {"op": "set", "k": k, "v": b"flush_all", "nr": bool(len(cases) % 2)}))
+    for tail in ("\n", "\r", "\r\n", " ", "\t", "\x0b", "\x0c", "\x00", "\n\n", "\x1c", "\x85", "\u2028"):
+        for body in ("key", "k" * 249, "k" * 250, "A:z~!"):
+            for k in (body + tail, tail + body, body + tail + "x"):
+                for cfg in cfgs[:2]:
+                    cases.append((cfg, {"op": "set", "k": k, "v": b"flush_all", "nr": None}))
+                    cases.append((cfg, {"op": "get_many", "ks": ["a", k]}))
+                    cases.append((cfg, {"op": "delete_many", "ks": [k, "b"], "nr": True}))
+                    if tail.isascii():
+                        cases.append((cfg, {"op": "incr", "k": k.encode(), "d": 1, "nr": False}))
     keys = [b"", "", b" ", " ", b"\r\n", "\t\n", b"k", "k", "k k", b"k\r\nset x 0 0 1\r\nX", "é", "€" * 83, "€" * 84, b"k" * 250, b"k" * 251,
             "k" * 249, b"\x00", b"a\x00b", b"noreply", "delete", b"\x7f\x01", "\x85", "k "]
     vals = [b"", b"v", b"\r\n", b"x\r\nset y 0 0 1\r\nINJECTED\r\n", b"END\r\n", b"VALUE k 0 1\r\n", "text", "é", 5, -7, 10 ** 30, b"\x00\xff" * 10]
@@ -213,7 +230,7 @@ def gen(ctx):
         if rng.random() < .6:
             k[rng.randrange(n)] = rng.choice(CLASSES)
         op = rng.choice(["get", "set", "delete", "incr", "touch"])
-        c = {"op": op, "k": bytes(k), "v": b"v", "d": 1, "e": 0, "nr": rng.choice([True, False])}
+        c = {"op": op, "k": bytes(k) if rng.random() < .5 else bytes(k).decode("latin-1"), "v": b"v", "d": 1, "e": 0, "nr": rng.choice([True, False])}
         cases.append((rng.choice(cfgs[:2]), c))
     return cases
 
@@ -380,6 +397,40 @@ def main(argv):
                         seq_metas.append((case, want))
     finally:
         hash_mod.time = real_ht
+    # ---- "and nothing more" when the send itself is cut short: whatever the failure of sendall (interrupted by a signal, timed out, reset) after
+    #      part of the request went out, the connection has carried a prefix of the intended command(s) - never the request a second time behind
+    #      its own fragment, whose middle a server would read as commands.  The intended bytes are those of the same call on a healthy
+    #      connection (checked against the strict parser above); the quantifier here is call x cut position x kind of failure x class.
+    from faultrun import Scripted
+    icalls = [{"op": "set", "k": "session", "v": b"x\r\nflush_all\r\n" + b"y" * 60, "nr": None}, {"op": "get", "k": "some_key"}, {"op": "incr", "k": "n", "d": 3, "nr": False},
+              {"op": "delete_many", "ks": ["a", "b", "c"], "nr": False}, {"op": "set_many", "items": [("a", b"flush_all"), ("b", b"2")], "nr": True},
+              {"op": "get_many", "ks": ["a", "b", "c", "d"]}, {"op": "touch", "k": "k", "e": 10, "nr": None}, {"op": "cas", "k": "k", "v": b"v", "cas": b"7", "nr": False}]
+    for ikind in ("Client", "Pooled", "Hash"):
+        for c in icalls:
+            def fresh():
+                S_ = Scripted(ctx.rng)
+                kw_ = dict(socket_module=S_.sm, default_noreply=True)
+                o_ = (Client(("h", 1), **kw_) if ikind == "Client" else PooledClient(("h", 1), max_pool_size=1, **kw_) if ikind == "Pooled"
+                      else HashClient([("h", 1)], retry_attempts=0, retry_timeout=0, dead_timeout=0, **kw_))
+                return S_, o_
+            S0, o0 = fresh()
+            S0.begin_call("call", {})
+            run_call(o0, copy.deepcopy(c))
+            healthy = b"".join(d for cn in S0.world.conns for t, d in cn.sent if t == "call")
+            cuts = sorted({1, 5, 10, len(healthy) // 2, len(healthy) - 1, -1})
+            for cut in cuts:
+                for fk in ("eintr", "timeout", "reset", "pipe"):
+                    S1, o1 = fresh()
+                    S1.begin_call("call", {"send_fault": fk, "send_after": cut})
+                    r = run_call(o1, copy.deepcopy(c))
+                    per_conn = [b"".join(d for t, d in cn.sent if t == "call") for cn in S1.world.conns]
+                    ctx.case(("interrupted-send", ikind, repr(c), cut, fk))
+                    ctx.count("interrupted-sends")
+                    for got in per_conn:
+                        if not healthy.startswith(got):
+                            ctx.violation("after an interrupted send the connection carried more than (a prefix of) the intended command",
+                                          {"class": ikind, "call": repr(c), "fault": fk, "delivered_before_fault": cut, "result": r, "intended": hx(healthy), "carried": hx(got)},
+                                          tags=["interrupted-send", "class:" + ikind])
     if ctx.lean.build_ok:
         for (case, want), o in zip(seq_metas, ctx.driver.batch(seq_lines)):
             if o != "ok " + want:
